@@ -19,7 +19,7 @@ RULE = ("reference dataset R (2-3 dims) and 1-2 source datasets S (1-3 dims) lin
         "scaled axis map, or a sequence whose consecutive requests differ only in a scalar bound / attribute / selection / dataset; "
         "distinct by spec hash.")
 ASSUMPTIONS = [
-    "links and data are fixed within a sequence (the statement says 'for unchanged data'); module caches are cleared at the top of every case",
+    "data are fixed within a sequence (the statement says 'for unchanged data'); in a third of the sequences the links are replaced once (set_links, delayed remove+add, or one by one) by links between the same attributes with other offsets - later requests are read without a cache id and under a new one; module caches are cleared at the top of every case",
     "a ranged R dimension that reaches no S dimension is broadcast (broadcast=True); with broadcast=False an IncompatibleDataException is accepted, and so is the correct broadcast buffer (the dependency analysis is allowed to be conservative for coupled axes); an exception when the dimension does reach S is a violation",
     "astropy WCS-linked datasets are out of scope; links are exact affine pixel maps",
 ]
@@ -45,12 +45,20 @@ def build(spec):
         n = int(np.prod(shp))
         S = Data(label="S%d" % k, v=(np.arange(n, dtype=float) * (k + 1)).reshape(shp), w=(np.arange(n, dtype=float)[::-1] + 0.5).reshape(shp))
         dc.append(S)
-        for j in range(len(shp)):
+        sources.append(S)
+    dc.add_link(make_links(spec, R, sources))
+    return R, sources, dc
+
+
+def make_links(spec, R, sources):
+    from glue.core.component_link import ComponentLink
+    links = []
+    for S, ss in zip(sources, spec["sources"]):
+        for j in range(len(ss["shape"])):
             a, b, pj = ss["a"][j], ss["b"][j], ss["pi"][j]
             src = R.world_component_ids[pj] if (ss.get("via_world") and spec.get("rcoords")) else R.pixel_component_ids[pj]
-            dc.add_link(ComponentLink([src], S.pixel_component_ids[j], using=mk_map(a, b)))
-        sources.append(S)
-    return R, sources, dc
+            links.append(ComponentLink([src], S.pixel_component_ids[j], using=mk_map(a, b)))
+    return links
 
 
 def sample_grid(bounds):
@@ -147,7 +155,30 @@ def fn_sequence(spec, rec):
     states = {}
     nontriv = False
     prev = None
+    cache_name = "shared-id"
+    relinked = False
     for k, req in enumerate(spec["requests"]):
+        rl = spec.get("relink")
+        if rl and rl["after"] == k and not relinked:
+            # the links between the same attributes are replaced by links with other offsets; what is read afterwards (without a
+            # cache id, and under a new one) must follow the links now in force
+            old = list(dc.external_links)
+            spec = dict(spec, sources=[dict(ss, b=[bb + d for bb, d in zip(ss["b"], (rl["shift"] * 3)[:len(ss["b"])])]) for ss in spec["sources"]])
+            new = make_links(spec, R, sources)
+            if rl["how"] == 0:
+                dc.set_links(new)
+            elif rl["how"] == 1:
+                with dc.delay_link_manager_update():
+                    dc.remove_link(old)
+                    dc.add_link(new)
+            else:
+                for l in old:
+                    dc.remove_link(l)
+                for l in new:
+                    dc.add_link(l)
+            relinked = True
+            cache_name = "shared-id-after-relink"
+            rec.label("relinked:" + ["set_links", "delayed", "one-by-one"][rl["how"]])
         req = dict(req)
         if req["kind"] == "mask" and req["src"] < 0:
             req["kind"] = "values"       # R has no 'v'; read its own attribute instead
@@ -164,9 +195,11 @@ def fn_sequence(spec, rec):
         if req["src"] < 0 and req["kind"] == "values":
             req["att"] = "r"
         exp, sure = oracle(spec, req, R, sources)
-        for cache_id, tag in ((None, "uncached"), ("shared-id", "cached")):
-            if cache_id is None and not spec["also_uncached"]:
+        for cache_id, tag in ((None, "uncached"), (cache_name, "cached")):
+            if cache_id is None and not spec["also_uncached"] and not relinked:
                 continue
+            if relinked:
+                tag += "/after-relink"
             detail = {"request": k, "mode": tag, "req": {x: y for x, y in req.items() if x != "_state"}}
             try:
                 got = run_request(req, R, sources, cache_id)
@@ -357,7 +390,11 @@ def cases(draw):
         if kind == "shear":
             i, j = draw(st.sampled_from([(0, 1), (1, 0)] + ([(1, 2), (0, 2)] if nr == 3 else [])))
             rcoords[i][j] = draw(st.sampled_from([1.0, -1.0, 0.5]))
-    return {"rshape": rshape, "rcoords": rcoords, "sources": sources, "requests": reqs, "also_uncached": draw(st.booleans())}
+    relink = None
+    if nreq >= 2 and draw(st.integers(0, 2)) == 0:
+        relink = {"after": draw(st.integers(1, nreq - 1)), "shift": [float(draw(st.sampled_from([1, 2, -1]))), float(draw(st.sampled_from([0, 1, -2]))), 1.0],
+                  "how": draw(st.integers(0, 2))}
+    return {"rshape": rshape, "rcoords": rcoords, "sources": sources, "requests": reqs, "also_uncached": draw(st.booleans()), "relink": relink}
 
 
 def checks(tier):
